@@ -1199,7 +1199,7 @@ Definition op_ids (o : op) : list Z :=
   | Extend g xs => g :: xs
   | Pop g _ | Clear g | DelItem g _ | ObsDesc g => [g]
   | DeleteLayer x | MoveUp x _ | MoveDown x _ | SetVisible x _ | SetLeft x _ | SetTop x _ | SetClip x _
-  | ObsBbox x | ObsSize x | ObsRepr x | ObsVisible x => [x]
+  | ObsBbox x | ObsSize x | ObsRepr x | ObsVisible x | ObsExport x _ => [x]
   end.
 
 (* The guard: the operation names existing objects; a layer handed to append / extend / insert /
@@ -1267,4 +1267,5 @@ Proof.
   - (* ObsDesc *) apply W0, okstep_refl, G.
   - (* ObsFind *) apply W0, okstep_refl, G.
   - (* ObsVisible *) apply W0. destruct (isvis (fuel_of s) s x); apply okstep_refl, G.
+  - (* ObsExport *) apply W0, okstep_refl, G.
 Qed.
